@@ -70,6 +70,7 @@ class Exec:
         self.obligations = []   # dicts: fn, block, kind, msg, pc(list of smt), neg(smt)
         self.returns = []       # (pc, value)
         self.return_calls = []  # per return path: callee names called on the way
+        self.return_callargs = []  # per return path: (callee, argument keys, result key)
         self.env0 = {}
         for (p, ty), a in zip(fn.params, args):
             self.env0[p] = a
@@ -376,6 +377,7 @@ class Exec:
             if st == "return":
                 self.returns.append((list(pc), env.get("_0", ("opq", "unit"))))
                 self.return_calls.append(env.get("#calls", ()))
+                self.return_callargs.append(env.get("#callargs", ()))
                 return
             if st in ("unreachable", "resume") or st.startswith("resume"):
                 return
@@ -440,6 +442,7 @@ class Exec:
                     return
                 val = self.call(callee.strip(), argv, dst, env, pc)
                 env["#calls"] = env.get("#calls", ()) + (callee.strip(),)
+                env["#callargs"] = env.get("#callargs", ()) + ((callee.strip(), tuple(self.key(a) for a in argv), self.key(val) if dst else ""),)
                 if dst:
                     self.assign(env, dst.strip(), val)
                 return self._block(ret, env, pc, steps + 1)
